@@ -58,13 +58,15 @@ type Op struct {
 }
 
 type In struct {
-	Kind    string `json:"kind"`   // main | minshould | regexp | enum
+	Kind    string `json:"kind"`   // main | leaf | termtree | onehit | widedisj | mergeappend | minshould | regexp | prefix-empty | enum
 	Engine  string `json:"engine"` // scorch-mem | scorch-disk | upsidedown
 	Batches [][]Op `json:"batches"`
 	// MergeAfter (scorch-disk only): force-merge the persisted segments into one after this many
 	// batches (merged segments are where scorch uses its 1-hit postings encoding); 0 = never
 	MergeAfter int `json:"merge_after,omitempty"`
 	Q          *QN `json:"q"`
+	// Tags: what the generator aimed at (histogram buckets only, never read by exec's search part)
+	Tags []string `json:"tags,omitempty"`
 }
 
 const baseNS = int64(1577836800) * 1_000_000_000 // 2020-01-01T00:00:00Z
@@ -79,9 +81,6 @@ type world struct {
 	engine string
 	docs   []*Doc // every document body generated for the history
 	uniq   bool   // give field w of every generated body a word no other body has
-	// steer: keep randomly generated trees out of the two signature classes (those shapes are
-	// generated as separate small cases, see gen)
-	steer bool
 }
 
 func (w *world) word() string { return vrand.Pick(w.r, w.vocab) }
@@ -226,7 +225,7 @@ func (w *world) mergeAfter(batches [][]Op) int {
 }
 
 func newWorld(r *vrand.R, engine string, nDocs int) *world {
-	w := &world{r: r, engine: engine, nDocs: nDocs, steer: true}
+	w := &world{r: r, engine: engine, nDocs: nDocs}
 	pool := append([]string{}, wordPool...)
 	vrand.Shuffle(r, pool)
 	w.vocab = pool[:r.Range(6, 10)]
@@ -291,7 +290,7 @@ func (w *world) fuzzOpts(q *QN, maxFz int) {
 	}
 }
 
-func (w *world) regex(d int, safe bool) *RX {
+func (w *world) regex(d int) *RX {
 	r := w.r
 	if d == 0 || r.Chance(1, 3) {
 		switch r.Intn(6) {
@@ -303,27 +302,17 @@ func (w *world) regex(d int, safe bool) *RX {
 		}
 		return &RX{Op: "chr", C: string("abcx"[r.Intn(4)])}
 	}
-	for {
-		var x *RX
-		switch r.Intn(7) {
-		case 0, 1, 2:
-			x = &RX{Op: "cat", A: w.regex(d-1, safe), B: w.regex(d-1, safe)}
-		case 3:
-			x = &RX{Op: "alt", A: w.regex(d-1, safe), B: w.regex(d-1, safe)}
-		case 4:
-			x = &RX{Op: "star", A: w.regex(d-1, safe)}
-		case 5:
-			x = &RX{Op: "plus", A: w.regex(d-1, safe)}
-		default:
-			x = &RX{Op: "opt", A: w.regex(d-1, safe)}
-		}
-		if safe {
-			if _, ok := x.fixedLen(); !ok {
-				continue
-			}
-		}
-		return x
+	switch r.Intn(7) {
+	case 0, 1, 2:
+		return &RX{Op: "cat", A: w.regex(d - 1), B: w.regex(d - 1)}
+	case 3:
+		return &RX{Op: "alt", A: w.regex(d - 1), B: w.regex(d - 1)}
+	case 4:
+		return &RX{Op: "star", A: w.regex(d - 1)}
+	case 5:
+		return &RX{Op: "plus", A: w.regex(d - 1)}
 	}
+	return &RX{Op: "opt", A: w.regex(d - 1)}
 }
 
 var leafKinds = []string{"term", "match", "phrase", "matchphrase", "multiphrase", "prefix", "wildcard", "regexp",
@@ -487,11 +476,7 @@ func (w *world) leafOf(kind string) *QN {
 		return q
 	case "prefix":
 		t := w.termFor(f)
-		lo := 0
-		if w.steer && w.engine == "upsidedown" {
-			lo = 1 // the empty prefix on upsidedown is generated separately (class prefix-empty-upsidedown)
-		}
-		return &QN{K: "prefix", F: f, T: t[:r.Range(lo, len(t))]}
+		return &QN{K: "prefix", F: f, T: t[:r.Range(0, len(t))]}
 	case "wildcard":
 		if r.Chance(1, 2) {
 			pats := []string{"a*", "*b", "a?", "?b*", "*", "a*c", "??", "*a*", "ab?", "?", "c*b", "x*", "a?c*"}
@@ -512,8 +497,7 @@ func (w *world) leafOf(kind string) *QN {
 		}
 		return &QN{K: "wildcard", F: f, T: string(t)}
 	case "regexp":
-		safe := w.steer && w.engine == "upsidedown"
-		return &QN{K: "regexp", F: f, Rx: w.regex(r.Range(1, 3), safe)}
+		return &QN{K: "regexp", F: f, Rx: w.regex(r.Range(1, 3))}
 	case "fuzzy":
 		q := &QN{K: "fuzzy", F: f, T: w.nearTerm(), Pre: r.Range(0, 3)}
 		if r.Chance(1, 2) {
@@ -675,13 +659,6 @@ func (w *world) treeP(d int, leafPct int) *QN {
 	if !q.HasMust && !q.HasShould && !q.HasMustNot && q.Filter == nil {
 		q.HasMustNot, q.MustNot = true, w.kids(d, false) // must-not only
 	}
-	if w.steer && minShouldShape(q) {
-		// keep random trees out of the minshould-score-none class (DESIGN.md section 8 item 5):
-		// one should child that never takes part in the score:none bitmap optimisation
-		blk := vrand.Pick(r, []*QN{{K: "all"}, {K: "none"}, {K: "docids", IDs: []int{r.Intn(w.nDocs), r.Intn(w.nDocs)}},
-			{K: "phrase", F: "t", Terms: []string{w.word()}}})
-		q.Should[r.Intn(len(q.Should))] = blk
-	}
 	return q
 }
 
@@ -751,7 +728,7 @@ var engines = []string{"scorch-mem", "scorch-disk", "upsidedown", "scorch-mem", 
 func gen(f vh.Flags, r *vrand.R, emit func(In)) {
 	thorough := f.Tier == "thorough"
 	// 1. random trees to depth 4 over random corpora
-	nCorpora := f.N(60, 2400)
+	nCorpora := f.N(52, 2400)
 	for ci := 0; ci < nCorpora; ci++ {
 		engine := engines[ci%len(engines)]
 		nDocs := r.Range(5, 12)
@@ -839,12 +816,27 @@ func gen(f vh.Flags, r *vrand.R, emit func(In)) {
 			emit(In{Kind: "onehit", Engine: "scorch-disk", Batches: batches, MergeAfter: len(batches), Q: q})
 		}
 	}
-	// 2. the signature classes, as separate small directed cases
+	// 1e. a wide disjunction (more clauses than searcher.DisjunctionHeapTakeover) under a sparse clause
+	nWD := f.N(60, 1500)
+	for i := 0; i < nWD; i++ {
+		engine := []string{"scorch-mem", "upsidedown", "scorch-disk"}[i%3]
+		if in := genWide(r.Fork(), engine); validate(in.Q) {
+			emit(in)
+		}
+	}
+	// 1f. on-disk scorch: batches, force-merge, further batches that stay unmerged
+	nMA := f.N(40, 1000)
+	for i := 0; i < nMA; i++ {
+		if in := genMergeAppend(r.Fork()); validate(in.Q) {
+			emit(in)
+		}
+	}
+	// 2. regression cases for three defects that were found by this check and fixed in /repo
+	// (min_should under score:none, regexp leftmost-first on upsidedown, empty prefix on upsidedown)
 	nMS := f.N(24, 600)
 	for i := 0; i < nMS; i++ {
 		engine := engines[i%len(engines)]
 		w := newWorld(r.Fork(), engine, r.Range(3, 6))
-		w.steer = false
 		w.vocab = w.vocab[:4]
 		term := func(t string) *QN { return &QN{K: "term", F: "k", T: t} }
 		// documents 0 and 1 satisfy the must clause; 0 satisfies no should clause
@@ -890,19 +882,12 @@ func gen(f vh.Flags, r *vrand.R, emit func(In)) {
 			engine = "scorch-mem"
 		}
 		w := newWorld(r.Fork(), engine, 0)
-		w.steer = false
 		w.nDocs = len(w.vocab)
 		var docs [][]Op
 		for id, t := range w.vocab {
 			docs = append(docs, []Op{{ID: id, Doc: &Doc{K: []string{t}}}})
 		}
-		lit := func(s string) *RX {
-			x := &RX{Op: "chr", C: s[:1]}
-			for _, c := range s[1:] {
-				x = &RX{Op: "cat", A: x, B: &RX{Op: "chr", C: string(c)}}
-			}
-			return x
-		}
+		lit := rxLit
 		var rx *RX
 		word := w.word()
 		for len(word) < 2 {
@@ -915,9 +900,9 @@ func gen(f vh.Flags, r *vrand.R, emit func(In)) {
 		case 1: // head(short|long)
 			rx = &RX{Op: "cat", A: lit(word[:cut]), B: &RX{Op: "alt", A: &RX{Op: "opt", A: &RX{Op: "any"}}, B: lit(word[cut:])}}
 		case 2:
-			rx = &RX{Op: "cat", A: &RX{Op: "alt", A: lit(word[:cut]), B: lit(word)}, B: &RX{Op: "opt", A: w.regex(1, false)}}
+			rx = &RX{Op: "cat", A: &RX{Op: "alt", A: lit(word[:cut]), B: lit(word)}, B: &RX{Op: "opt", A: w.regex(1)}}
 		default:
-			rx = w.regex(w.r.Range(2, 4), false)
+			rx = w.regex(w.r.Range(2, 4))
 		}
 		q := &QN{K: "regexp", F: "k", Rx: rx}
 		if validate(q) {
@@ -927,7 +912,6 @@ func gen(f vh.Flags, r *vrand.R, emit func(In)) {
 	nPE := f.N(6, 100)
 	for i := 0; i < nPE; i++ {
 		w := newWorld(r.Fork(), "upsidedown", r.Range(2, 4))
-		w.steer = false
 		var docs [][]Op
 		for id := 0; id < w.nDocs; id++ {
 			d := &Doc{}
@@ -971,6 +955,450 @@ func gen(f vh.Flags, r *vrand.R, emit func(In)) {
 			}
 		}
 	}
+}
+
+// ---------------------------------------------------------------- directed streams
+
+// rxLit: the regular expression matching exactly the (non-empty) string s
+func rxLit(s string) *RX {
+	x := &RX{Op: "chr", C: s[:1]}
+	for _, c := range s[1:] {
+		x = &RX{Op: "cat", A: x, B: &RX{Op: "chr", C: string(c)}}
+	}
+	return x
+}
+
+// setWords puts words into text field f of d: one value per word for the keyword fields; for
+// the whitespace-analysed fields either one value per word or one text holding all of them
+func setWords(r *vrand.R, d *Doc, f string, words []string) {
+	if len(words) == 0 {
+		return
+	}
+	vals := append([]string{}, words...)
+	if (f == "t" || f == "u") && r.Bool() {
+		vals = []string{strings.Join(words, " ")}
+	}
+	arr := len(vals) > 1 || r.Bool()
+	switch f {
+	case "k":
+		d.K, d.KArr = vals, arr
+	case "w":
+		d.W, d.WArr = vals, arr
+	case "t":
+		d.T, d.TArr = vals, arr
+	case "u":
+		d.U, d.UArr = vals, arr
+	default:
+		panic("bad text field " + f)
+	}
+}
+
+// chunk cuts ops into consecutive batches of lo..hi operations (never the same id twice in a batch)
+func chunk(r *vrand.R, ops []Op, lo, hi int) [][]Op {
+	var batches [][]Op
+	var cur []Op
+	seen := map[int]bool{}
+	limit := r.Range(lo, hi)
+	for _, op := range ops {
+		if seen[op.ID] || len(cur) >= limit {
+			batches = append(batches, cur)
+			cur, seen, limit = nil, map[int]bool{}, r.Range(lo, hi)
+		}
+		cur = append(cur, op)
+		seen[op.ID] = true
+	}
+	if len(cur) > 0 {
+		batches = append(batches, cur)
+	}
+	return batches
+}
+
+// genWide: "wide disjunction under a sparse clause".  11-14 distinct terms sharing a prefix are
+// spread densely over 14-24 documents (several segments); 1-3 scattered documents carry a flag.
+// The query combines a clause W that expands to all the wide terms (prefix / wildcard / regexp /
+// term range / fuzzy / match with operator OR / an explicit disjunction of term queries: more
+// children than searcher.DisjunctionHeapTakeover) with a clause S matching only the flagged
+// documents: W as must-not, as should with min >= 1, as filter, as a plain conjunct, ...
+func genWide(r *vrand.R, engine string) In {
+	nWide := r.Range(searcher.DisjunctionHeapTakeover+1, searcher.DisjunctionHeapTakeover+4)
+	pre := vrand.Pick(r, []string{"p", "ab", "x", "ca", "b", "pq"})
+	sfx := strings.Split("abcdefghijklmnop", "")
+	vrand.Shuffle(r, sfx)
+	long := r.Chance(1, 4) // two-letter suffixes now and then
+	wide := make([]string, nWide)
+	for i := range wide {
+		wide[i] = pre + sfx[i]
+		if long && r.Bool() {
+			wide[i] += string("abc"[r.Intn(3)])
+		}
+	}
+	fw := vrand.Pick(r, []string{"k", "w", "t", "k", "w"})      // field of the wide terms
+	fs := vrand.Pick(r, []string{"k", "w", "t", "u", "u", "u"}) // field of the flags
+	const flag, flag2 = "zz", "zy"
+	noise := []string{"m", "mm", "n"}
+
+	nDocs := r.Range(nWide+3, nWide+10) // 14..24
+	// the flagged documents: 1-3, scattered, not among the first two
+	nS := r.Range(1, 3)
+	sparse := map[int]bool{}
+	for len(sparse) < nS {
+		id := r.Range(2, nDocs-1)
+		if len(sparse) == 0 && r.Chance(1, 2) {
+			id = r.Range(nDocs/2, nDocs-1)
+		}
+		sparse[id] = true
+	}
+	// every wide term is used at least once, by an unflagged document
+	var first []int
+	for i := 0; i < nDocs; i++ {
+		if !sparse[i] {
+			first = append(first, i)
+		}
+	}
+	vrand.Shuffle(r, first)
+	owner := map[int]string{}
+	for i, t := range wide {
+		owner[first[i]] = t
+	}
+	mkBody := func(id int) *Doc {
+		d := &Doc{}
+		var ws, fl []string
+		if t, ok := owner[id]; ok {
+			ws = append(ws, t)
+		} else if r.Chance(2, 3) {
+			ws = append(ws, vrand.Pick(r, wide))
+		}
+		if len(ws) > 0 && r.Chance(1, 5) {
+			if t := vrand.Pick(r, wide); t != ws[0] {
+				ws = append(ws, t)
+			}
+		}
+		if r.Chance(1, 3) {
+			ws = append(ws, vrand.Pick(r, noise))
+		}
+		switch {
+		case sparse[id]:
+			fl = []string{flag, flag2}
+		case r.Chance(1, 6):
+			fl = []string{flag2} // half of the two-term sparse conjunction
+		case r.Chance(1, 4):
+			fl = []string{vrand.Pick(r, noise)}
+		}
+		if fw == fs {
+			all := append(append([]string{}, ws...), fl...)
+			vrand.Shuffle(r, all)
+			setWords(r, d, fw, all)
+		} else {
+			setWords(r, d, fw, ws)
+			setWords(r, d, fs, fl)
+		}
+		if sparse[id] {
+			d.B = []bool{true}
+		} else if r.Chance(1, 2) {
+			d.B = []bool{false}
+		}
+		if len(d.K)+len(d.W)+len(d.T)+len(d.U)+len(d.B) == 0 {
+			d.B = []bool{false}
+		}
+		return d
+	}
+	var ops []Op
+	for id := 0; id < nDocs; id++ {
+		ops = append(ops, Op{ID: id, Doc: mkBody(id)})
+	}
+	// a few later changes: deletes and re-indexed documents
+	for i := r.Range(0, 3); i > 0; i-- {
+		id := r.Intn(nDocs)
+		if r.Chance(1, 2) {
+			ops = append(ops, Op{Del: true, ID: id})
+		} else {
+			ops = append(ops, Op{ID: id, Doc: mkBody(id)})
+		}
+	}
+	hi := vrand.Pick(r, []int{1, 2, 3, 5}) // single-document batches: a fully determined document order
+	batches := chunk(r, ops, 1, hi)
+	mergeAfter := 0
+	if engine == "scorch-disk" && r.Chance(1, 3) {
+		mergeAfter = r.Range(len(batches)/2, len(batches))
+	}
+
+	term := func(f, t string) *QN { return &QN{K: "term", F: f, T: t} }
+	// W: the wide clause
+	var W *QN
+	wkind := vrand.Pick(r, []string{"prefix", "prefix", "wildcard", "regexp", "termrange", "fuzzy", "match", "disj", "disj", "disj"})
+	if wkind == "match" && fw != "t" {
+		wkind = "prefix"
+	}
+	switch wkind {
+	case "prefix":
+		W = &QN{K: "prefix", F: fw, T: pre}
+	case "wildcard":
+		W = &QN{K: "wildcard", F: fw, T: pre + vrand.Pick(r, []string{"*", "?*", "*?"})}
+	case "regexp":
+		W = &QN{K: "regexp", F: fw, Rx: &RX{Op: "cat", A: rxLit(pre), B: &RX{Op: vrand.Pick(r, []string{"star", "plus"}), A: &RX{Op: "any"}}}}
+	case "termrange":
+		lo, hi := pre, pre[:len(pre)-1]+string(pre[len(pre)-1]+1)
+		W = &QN{K: "termrange", F: fw, Lo: &lo, Hi: &hi}
+	case "fuzzy":
+		// every wide term with a one-letter suffix is one substitution away from pre+"a"
+		W = &QN{K: "fuzzy", F: fw, T: pre + "a", Pre: r.Range(0, len(pre)), Fz: r.Range(1, 2)}
+	case "match":
+		ws := append([]string{}, wide...)
+		vrand.Shuffle(r, ws)
+		W = &QN{K: "match", F: fw, T: strings.Join(ws, " ")}
+	default:
+		W = &QN{K: "disj", Min2: vrand.Pick(r, []int{0, 0, 2, 2, 4})}
+		for _, t := range wide {
+			W.Kids = append(W.Kids, term(fw, t))
+		}
+		if r.Chance(1, 4) {
+			W.Kids[r.Intn(len(W.Kids))] = term(fw, pre+"zzz") // no such term
+		}
+		vrand.Shuffle(r, W.Kids)
+	}
+	// S: the sparse clause
+	var S *QN
+	skind := vrand.Pick(r, []string{"term", "term", "term", "docids", "conj", "bool"})
+	switch skind {
+	case "term":
+		S = term(fs, flag)
+	case "docids":
+		S = &QN{K: "docids", IDs: []int{}}
+		for id := range sparse {
+			S.IDs = append(S.IDs, id)
+		}
+		sort.Ints(S.IDs)
+	case "conj":
+		S = &QN{K: "conj", Kids: []*QN{term(fs, flag2), term(fs, flag)}}
+	default:
+		S = &QN{K: "bool", F: "b", V: true}
+	}
+	other := term(fw, vrand.Pick(r, noise))
+	var q *QN
+	role := vrand.Pick(r, []string{"mustnot", "mustnot", "mustnot", "should1", "should1", "should1", "should-list", "should+other",
+		"mustnot+other", "should0", "conj", "must", "filter", "should-only-mustnot", "nested", "sparse-filter"})
+	switch role {
+	case "mustnot":
+		q = &QN{K: "boolean", HasMust: true, Must: []*QN{S}, HasMustNot: true, MustNot: []*QN{W}}
+	case "should1":
+		q = &QN{K: "boolean", HasMust: true, Must: []*QN{S}, HasShould: true, Should: []*QN{W}, Min2: vrand.Pick(r, []int{2, 2, 3})}
+	case "should-list": // the should clause itself is the wide disjunction
+		q = &QN{K: "boolean", HasMust: true, Must: []*QN{S}, HasShould: true, Min2: vrand.Pick(r, []int{2, 2, 4})}
+		for _, t := range wide {
+			q.Should = append(q.Should, term(fw, t))
+		}
+	case "should+other":
+		q = &QN{K: "boolean", HasMust: true, Must: []*QN{S}, HasShould: true, Should: []*QN{W, other}, Min2: vrand.Pick(r, []int{2, 2, 4})}
+	case "mustnot+other":
+		q = &QN{K: "boolean", HasMust: true, Must: []*QN{S}, HasMustNot: true, MustNot: []*QN{other, W}}
+	case "should0":
+		q = &QN{K: "boolean", HasMust: true, Must: []*QN{S}, HasShould: true, Should: []*QN{W}, Min2: 0}
+	case "conj":
+		q = &QN{K: "conj", Kids: []*QN{S, W}}
+		if r.Bool() {
+			q.Kids = []*QN{W, S}
+		}
+	case "must":
+		q = &QN{K: "boolean", HasMust: true, Must: []*QN{W, S}}
+	case "filter":
+		q = &QN{K: "boolean", HasMust: true, Must: []*QN{S}, Filter: W}
+	case "should-only-mustnot":
+		q = &QN{K: "boolean", HasShould: true, Should: []*QN{S}, Min2: vrand.Pick(r, []int{0, 2}), HasMustNot: true, MustNot: []*QN{W}}
+	case "nested": // the boolean one level down
+		in := &QN{K: "boolean", HasMust: true, Must: []*QN{S}, HasMustNot: true, MustNot: []*QN{W}}
+		if r.Bool() {
+			in = &QN{K: "boolean", HasMust: true, Must: []*QN{S}, HasShould: true, Should: []*QN{W}, Min2: 2}
+		}
+		switch r.Intn(3) {
+		case 0:
+			q = &QN{K: "disj", Kids: []*QN{in, other}}
+		case 1:
+			q = &QN{K: "conj", Kids: []*QN{{K: "all"}, in}}
+		default:
+			q = &QN{K: "boolean", HasMust: true, Must: []*QN{{K: "all"}}, Filter: in}
+		}
+	default: // "sparse-filter": the sparse clause restricts as a filter
+		q = &QN{K: "boolean", Filter: S, HasMustNot: true, MustNot: []*QN{W}}
+		if r.Bool() {
+			q = &QN{K: "boolean", Filter: S, HasShould: true, Should: []*QN{W}, Min2: 2}
+		}
+	}
+	return In{Kind: "widedisj", Engine: engine, Batches: batches, MergeAfter: mergeAfter, Q: q,
+		Tags: []string{"wide:" + wkind, "wide-role:" + role, "sparse:" + skind}}
+}
+
+// genMergeAppend: "merged, then appended" on on-disk scorch.  A few small batches on field w
+// (keyword, no term vectors) and the boolean field in which some words occur in exactly one
+// document are force-merged into one segment (scorch's 1-hit postings encoding is written by
+// merges only); then further batches, in which the same words are frequent, are indexed and
+// NOT merged.  The queries are conjunctions / boolean must lists / filter clauses over a word
+// that is rare in the merged segment and a common word, with matches in the later segments.
+func genMergeAppend(r *vrand.R) In {
+	common := []string{"a", "b", "c"}
+	rare := []string{"ra", "rb", "rc", "rd"}[:r.Range(2, 4)]
+	var ops []Op
+	var cuts []int // batch boundaries (operation counts)
+	id := 0
+	words := func(ws ...string) []string { // distinct words: every term has frequency 1 in its document
+		var out []string
+		for _, w := range ws {
+			dup := false
+			for _, x := range out {
+				dup = dup || x == w
+			}
+			if !dup {
+				out = append(out, w)
+			}
+		}
+		return out
+	}
+	// phase 1: 2-4 batches of 1-3 documents; every rare word in exactly one of them
+	n1 := 0
+	sizes1 := []int{}
+	for b := r.Range(2, 4); b > 0; b-- {
+		n := r.Range(1, 3)
+		sizes1 = append(sizes1, n)
+		n1 += n
+	}
+	home := map[int][]string{}
+	for _, w := range rare {
+		d := r.Intn(n1)
+		home[d] = append(home[d], w)
+	}
+	trueDoc := r.Intn(n1 + 1) // the one phase-1 document with b = true (n1: none)
+	for _, n := range sizes1 {
+		for i := 0; i < n; i++ {
+			d := &Doc{}
+			ws := append([]string{}, home[id]...)
+			if r.Chance(4, 5) {
+				ws = append(ws, vrand.Pick(r, common))
+			}
+			if r.Chance(1, 4) {
+				ws = append(ws, vrand.Pick(r, common))
+			}
+			ws = words(ws...)
+			if len(ws) == 0 {
+				ws = []string{"m"}
+			}
+			d.W, d.WArr = ws, len(ws) > 1 || r.Bool()
+			if r.Chance(1, 2) {
+				d.K, d.KArr = []string{vrand.Pick(r, common)}, r.Bool()
+			}
+			if id == trueDoc {
+				d.B = []bool{true}
+			} else if r.Chance(1, 2) {
+				d.B = []bool{false}
+			}
+			ops = append(ops, Op{ID: id, Doc: d})
+			id++
+		}
+		cuts = append(cuts, len(ops))
+	}
+	mergeAfter := len(cuts)
+	// phase 2: 1-3 batches of 2-5 documents in which the rare words are frequent
+	hot := rare[:r.Range(1, len(rare))]
+	for b := r.Range(1, 3); b > 0; b-- {
+		touched := map[int]bool{}
+		for n := r.Range(2, 5); n > 0; n-- {
+			d := &Doc{}
+			var ws []string
+			if r.Chance(3, 4) {
+				ws = append(ws, vrand.Pick(r, hot))
+			}
+			if r.Chance(1, 5) {
+				ws = append(ws, vrand.Pick(r, rare))
+			}
+			if r.Chance(4, 5) {
+				ws = append(ws, vrand.Pick(r, common))
+			}
+			if r.Chance(1, 3) {
+				ws = append(ws, vrand.Pick(r, common))
+			}
+			ws = words(ws...)
+			if len(ws) == 0 {
+				ws = []string{"m"}
+			}
+			d.W, d.WArr = ws, len(ws) > 1 || r.Bool()
+			if r.Chance(1, 2) {
+				d.K, d.KArr = []string{vrand.Pick(r, common)}, r.Bool()
+			}
+			if r.Chance(2, 3) {
+				d.B = []bool{r.Chance(2, 3)}
+			}
+			target := id
+			if r.Chance(1, 8) { // re-index a document of the merged segment
+				target = r.Intn(n1)
+			}
+			if touched[target] {
+				continue
+			}
+			touched[target] = true
+			if target == id {
+				id++
+			}
+			ops = append(ops, Op{ID: target, Doc: d})
+		}
+		if r.Chance(1, 6) {
+			if t := r.Intn(n1); !touched[t] {
+				ops = append(ops, Op{Del: true, ID: t})
+			}
+		}
+		cuts = append(cuts, len(ops))
+	}
+	var batches [][]Op
+	prev := 0
+	for _, c := range cuts {
+		if c > prev {
+			batches = append(batches, ops[prev:c])
+		}
+		prev = c
+	}
+
+	wt := func(t string) *QN { return &QN{K: "term", F: "w", T: t} }
+	rt := wt(vrand.Pick(r, hot))
+	ct := wt(vrand.Pick(r, common))
+	var third *QN
+	switch r.Intn(3) {
+	case 0:
+		third = &QN{K: "bool", F: "b", V: true}
+	case 1:
+		third = &QN{K: "term", F: "k", T: vrand.Pick(r, common)}
+	default:
+		third = wt(vrand.Pick(r, common))
+	}
+	pair := []*QN{rt, ct}
+	if r.Bool() {
+		pair = []*QN{ct, rt}
+	}
+	if r.Chance(1, 5) {
+		pair[1] = &QN{K: "bool", F: "b", V: true}
+	}
+	cj := &QN{K: "conj", Kids: pair}
+	var q *QN
+	shape := vrand.Pick(r, []string{"conj", "conj", "conj3", "filter-conj", "filter-conj", "must-list", "must+filter",
+		"filter-conj+mustnot", "disj-of-conj", "must-conj+should", "conj-nested"})
+	switch shape {
+	case "conj":
+		q = cj
+	case "conj3":
+		q = &QN{K: "conj", Kids: append(append([]*QN{}, pair...), third)}
+	case "filter-conj":
+		q = &QN{K: "boolean", HasMust: true, Must: []*QN{{K: "all"}}, Filter: cj}
+	case "must-list":
+		q = &QN{K: "boolean", HasMust: true, Must: pair}
+	case "must+filter":
+		q = &QN{K: "boolean", HasMust: true, Must: pair[:1], Filter: pair[1]}
+	case "filter-conj+mustnot":
+		q = &QN{K: "boolean", Filter: cj, HasMustNot: true, MustNot: []*QN{third}}
+	case "disj-of-conj":
+		q = &QN{K: "disj", Kids: []*QN{cj, wt("m")}}
+	case "must-conj+should":
+		q = &QN{K: "boolean", HasMust: true, Must: []*QN{cj}, HasShould: true, Should: []*QN{third}, Min2: 0}
+	default:
+		q = &QN{K: "conj", Kids: []*QN{cj, third}}
+	}
+	return In{Kind: "mergeappend", Engine: "scorch-disk", Batches: batches, MergeAfter: mergeAfter, Q: q,
+		Tags: []string{"mergeappend:" + shape}}
 }
 
 // enumerate: all trees of depth <= 2 over the leaves term a, term b, match-all where a node has
@@ -1304,6 +1732,7 @@ func run(in In) vh.Result {
 		segs += "(force-merged)"
 	}
 	hist := []string{"kind:" + in.Kind, "engine:" + in.Engine, "root:" + in.Q.K, fmt.Sprintf("depth:%d", in.Q.depth())}
+	hist = append(hist, in.Tags...)
 	if segs != "" {
 		hist = append(hist, segs)
 	}
